@@ -1,6 +1,7 @@
 //! nsmc — bounded-exhaustive model checking harness for ndarray-stats.
 pub mod exact;
 pub mod explore;
+pub mod fl;
 pub mod json;
 pub mod layouts;
 pub mod patterns;
